@@ -145,10 +145,12 @@ def as_listv(eng, x, st, n, want=None):
     if isinstance(t, T.SetT):
         lt = T.ListV(t.elem)
         r, st = eng.fresh(lt, "lst", st)
+        r.aux = ("unique",)
         return r, st.assume(lt.elems(r.z) == x.z)
     if isinstance(t, T.DictT) and not isinstance(t, (ItemsT, ValuesT)):
         lt = T.ListV(t.key)
         r, st = eng.fresh(lt, "keys", st)
+        r.aux = ("unique",)
         return r, st.assume(lt.elems(r.z) == t.dom(x.z))
     if isinstance(t, ItemsT):
         dt = t.dt
@@ -158,6 +160,7 @@ def as_listv(eng, x, st, n, want=None):
         elems = z3.Lambda([p], z3.And(z3.Select(dt.dom(x.z), tt.get(p, 0)),
                                       z3.Select(dt.vals(x.z), tt.get(p, 0)) == tt.get(p, 1)))
         r, st = eng.fresh(lt, "items", st)
+        r.aux = ("unique",)
         k = dt.key.fresh("k")
         return r, st.assume(lt.elems(r.z) == elems, (lt.len(r.z) == 0) == z3.Not(z3.Exists([k], z3.Select(dt.dom(x.z), k))))
     if isinstance(t, ValuesT):
